@@ -184,6 +184,34 @@ func (p c15) RunBatch(ctx *core.Ctx, batch int) {
 		}
 		c15Tree(ctx, t, true)
 	}
+	if batch == nEnum {
+		// expressions only the constructors (or a JSON decoder) can build: lists whose members
+		// have different operators, patterns as range bounds, expressions in odd places
+		for i, e := range c15HandBuilt() {
+			e := e
+			ctx.Case(fmt.Sprintf("hand-built expression %d: %s", i, e.String()), func() { c15Fold(ctx, fmt.Sprintf("hand-built %d", i), e, true) })
+		}
+	}
+}
+
+func c15HandBuilt() []*expr.Expression {
+	l := func(es ...*expr.Expression) *expr.Expression { return expr.LIST(es) }
+	return []*expr.Expression{
+		expr.IN("a", l(expr.WILD("b*"), expr.Lit("c"))),
+		expr.IN("a", l(expr.Lit("c"), expr.WILD("b*"))),
+		expr.IN("a", l(expr.REGEXP("/r/"), expr.Lit(1), expr.WILD("x?"))),
+		expr.IN("a", l(expr.Lit("x"), expr.REGEXP("/r/"), expr.Lit("y"))),
+		expr.AND(expr.IN("a", l(expr.WILD("b*"), expr.Lit("c"), expr.Lit("d"))), expr.Eq("e", "f")),
+		expr.NOT(expr.IN("a", l(expr.Lit(1.5), expr.WILD("?"), expr.Lit("z")))),
+		expr.Rang("a", expr.WILD("b*"), expr.REGEXP("/z/"), true),
+		expr.Rang("a", expr.Lit("x"), expr.WILD("y?"), false),
+		expr.Eq("a", expr.AND(expr.Lit("x"), expr.WILD("y*"))),
+		expr.GREATER("a", expr.OR(expr.Lit(1), expr.REGEXP("/r/"))),
+		expr.OR(expr.MUST(expr.WILD("w*")), expr.MUSTNOT(expr.REGEXP("/r/"))),
+		expr.LIKE("a", expr.WILD("x*")),
+		expr.LIKE("a", expr.REGEXP("/x/")),
+		expr.AND(expr.WILD("w*"), expr.REGEXP("/r/")),
+	}
 }
 
 func c15Tree(ctx *core.Ctx, t *qt.Node, variants bool) {
